@@ -191,7 +191,7 @@ def replayOne (r : WalRec) (s : Store) : Store × Option String × Bool :=
         else
           let l' : Leaf := { l with cells := l.cells.map (fun c => if c.key == r.cell then { c with val := r.val } else c), lsn := r.lsn }
           ({ s1 with mem := assocSet s1.mem l.off ⟨.leaf l', true⟩ }, none, false)
-    else
+    else if r.op == c_OpDelete then
       match node with
       | .internal n =>
         -- `findCellOffsetByKey` runs over the separators: a miss is the error, a hit indexes the (empty) leaf cells
@@ -202,6 +202,9 @@ def replayOne (r : WalRec) (s : Store) : Store × Option String × Bool :=
         else
           let l' : Leaf := { l with cells := l.cells.map (fun c => if c.key == r.cell then { c with deleted := true } else c), lsn := r.lsn }
           ({ s1 with mem := assocSet s1.mem l.off ⟨.leaf l', true⟩ }, none, false)
+    -- the `switch` has no default: a record with any other operation code changes no page (the LSN
+    -- counter was raised above, the page was fetched) and the replay goes on
+    else (s1, none, false)
   | _ => (s, some "fetch", false)
 
 def replayAll : List WalRec → Store → Store × Option String × Bool
